@@ -37,6 +37,14 @@ pub fn objref(a: Address) -> ObjectReference {
 macro_rules! define_unit_vm {
     ($name:ident, log: $log:expr, fwd_ptr: $fp:expr, fwd_bits: $fb:expr, mark: $mark:expr,
      pin: $pin:expr, los: $los:expr) => {
+        $crate::define_unit_vm!($name, log: $log, fwd_ptr: $fp, fwd_bits: $fb, mark: $mark,
+            pin: $pin, los: $los, unified: false);
+    };
+    // `unified: true` declares `UNIFIED_OBJECT_REFERENCE_ADDRESS` (true for this object model:
+    // the object reference is the object start); the Compressor plan refuses to be created
+    // without it, native mark-sweep sweeps differently with it.
+    ($name:ident, log: $log:expr, fwd_ptr: $fp:expr, fwd_bits: $fb:expr, mark: $mark:expr,
+     pin: $pin:expr, los: $los:expr, unified: $unified:expr) => {
         #[derive(Default)]
         pub struct $name;
 
@@ -59,6 +67,7 @@ macro_rules! define_unit_vm {
             const LOCAL_PINNING_BIT_SPEC: mmtk::vm::VMLocalPinningBitSpec = $pin;
             const LOCAL_LOS_MARK_NURSERY_SPEC: mmtk::vm::VMLocalLOSMarkNurserySpec = $los;
             const OBJECT_REF_OFFSET_LOWER_BOUND: isize = 0;
+            const UNIFIED_OBJECT_REFERENCE_ADDRESS: bool = $unified;
 
             fn copy(
                 _from: mmtk::util::ObjectReference,
